@@ -538,3 +538,8 @@ Qed.
 
 Theorem murmur3_token_range key : (- 2 ^ 63 < murmur3_token_spec key < 2 ^ 63)%Z.
 Proof. apply j_normalize_range, murmur3_spec_range. Qed.
+
+(* a CDC stream id is 16 bytes: for such keys every reading of the CDC partitioner agrees *)
+Theorem cdc_chunking_stream_id chunks : length (concat chunks) = 16 ->
+  cdc_finish (fold_left cdc_write chunks cdc_init) = j_normalize (dec_signed (firstn 8 (concat chunks))).
+Proof. intros H. rewrite cdc_chunking. apply cdc_token_long. lia. Qed.
